@@ -19,7 +19,7 @@ EXPLANATION = (
     "raise): callbacks go only to the active mode, in the order on_enable, on_iteration*, on_disable, and nothing is delivered to a mode "
     "after its on_disable.  C14.O5 run(): one Timer created and started before on_enable, its get() passed to every on_iteration, "
     "never reset/stopped in the loop; disable() is reached on every exit; if user code calls disable() during the period no further "
-    "callback reaches the old mode."
+    "callback reaches the old mode.  C14.O6 module names: on file names chosen to expose wrong suffix handling (sweep.py, strategy.py, happy.py, py.py, a.b.py ...) every NAME.py except __init__.py is imported as '.NAME' (os.path string functions are evaluated on concrete arguments)."
 )
 RULE = "one case = one path of the constructor (package layout x flags x faults) / one typestate transition of the lifecycle"
 EXHAUSTIVE = True
